@@ -1,15 +1,22 @@
 (* C06 Presence reflects live subscriptions.
-   Property theorems only; proofs live in Proofs/PresenceHub.v and Proofs/SubPresence.v.
+   Property theorems only; proofs live in Proofs/PresenceHub.v, Proofs/SubPresence.v,
+   Proofs/SubPresInv.v (presence-owner invariant), Proofs/SubAtRest.v, Proofs/SubFlags.v,
+   Proofs/SubTickRestores.v.
 
    Part 1 (complete): presenceHub (presence_memory.go), for ANY sequence of add/remove calls.
-   Part 2 (life cycle, Model/SubLifecycle.v): the full statement
+   Part 2 (life cycle, Model/SubLifecycle.v, after fix f4ffc2fd), the statement
      settled s -> (pres s c = true <-> subscribed to c with presence enabled)
-   was false before fix f4ffc2fd (stale entry after a tick raced an unsubscribe and a failing
-   re-subscribe: C06_name_only_compensation_prefix_refuted; the driver's gated schedule 1 replays
-   it and is clean now).  No general positive life-cycle theorem is proved: that half rests on
-   the correspondence and the oracle; with the wait-gate timeout a leak remains (see C05). *)
+   - "->" (no stale entry) is PROVED for every schedule without the 5 s wait-gate timeout
+     (C06_presence_only_if_subscribed_partial; suffix = exactly that exclusion, with the timeout a
+     leak remains, see C05).  Before the fix it was false (C06_name_only_compensation_prefix_refuted).
+   - "<-" is FALSE as stated even without timeouts: the documented transient, a subscription can be
+     absent from presence until the next tick (C06_transient_absence).  PROVED instead: from any
+     state at rest (authenticated, not closed) one presence tick that runs alone and whose
+     AddPresence calls succeed ends in a state at rest with the same subscriptions where
+     in presence <-> subscribed with presence (C06_tick_restores_presence_partial). *)
 From Coq Require Import List NArith ZArith Bool.
-From Cfg Require Import Model.PresenceHub Proofs.PresenceHub Model.SubLifecycle Proofs.SubPresence.
+From Cfg Require Import Model.PresenceHub Proofs.PresenceHub Model.SubLifecycle Proofs.SubPresence
+  Proofs.SubPresInv Proofs.SubAtRest Proofs.SubTickRestores.
 Import ListNotations.
 Open Scope N_scope.
 
@@ -57,6 +64,29 @@ Theorem C06_name_only_compensation_prefix_refuted :
     raced_items s (tick_added s 4) = [0] /\ raced_items_name_only s (tick_added s 4) = [].
 Proof. exact name_only_compensation_refuted. Qed.
 Print Assumptions C06_name_only_compensation_prefix_refuted.
+
+(* No stale entry, general: at rest the connection is in a channel's presence only if it is
+   subscribed there with presence enabled.  Every schedule without the wait-gate timeout. *)
+Theorem C06_presence_only_if_subscribed_partial :
+  forall sched s c,
+    no_timeout sched = true -> exec sched init = Some s -> settled s ->
+    pres s c = true ->
+    exists x, lookup c (chans s) = Some x /\ c_sub x = true /\ o_pres (c_opts x) = true.
+Proof. exact presence_only_if_subscribed. Qed.
+Print Assumptions C06_presence_only_if_subscribed_partial.
+
+(* No missing entry after a tick: from a state at rest (authenticated, not closed) there is a
+   continuation consisting of one presence tick alone (all AddPresence calls succeeding) that ends
+   at rest with the same c.channels and  in presence <-> subscribed with presence  on every channel.
+   [live_pres s c] = exists x, lookup c (chans s) = Some x /\ c_sub x = true /\ o_pres (c_opts x) = true. *)
+Theorem C06_tick_restores_presence_partial :
+  forall sched s,
+    no_timeout sched = true -> exec sched init = Some s -> settled s ->
+    authed s = true -> status s <> Closed ->
+    exists tick s', no_timeout tick = true /\ exec tick s = Some s' /\ settled s' /\ chans s' = chans s /\
+                    forall c, pres s' c = true <-> live_pres s' c.
+Proof. exact tick_restores. Qed.
+Print Assumptions C06_tick_restores_presence_partial.
 
 (* The documented transient: subscribed with presence but absent until the next tick. *)
 Theorem C06_transient_absence :
